@@ -115,12 +115,15 @@ def run(rep, tier, seed):
         fut = ex.submit(compute_destroy, tier, seed)
         res = k2check.run_k2(rep, 'C20', tier, seed, 'c20', nh, nops, extra_histories=[CORPUS])
         dres = fut.result()
+    import k8check
+    k8check.run_backup_points(rep, tier, seed)      # pthread build: backups taken while other threads write / flush / compact
     life = {}
     for r in res:
         for k, v in r['res'].stats.items():
             if k.startswith('life_'): life[k[5:]] = life.get(k[5:], 0) + v
     rep.cov['lifecycle_ops'] = life
     report_destroy(rep, *dres)
+    rep.cov['rule_k8'] = ('pthread build: 2..5 threads write, flush, compact and call ldb_backup under schedule perturbation; after the run every backup that returned OK is opened (paranoid) and scanned: it must open and equal the state of the source at one point of the publish order between its invocation and its return')
     rep.cov['rule'] = ('K2: histories as for C01 plus lock2 (second ldb_open of the open directory must fail, the record lock on LOCK probed '
                        'from a forked child must still be held afterwards), backup n / bscan n (ldb_backup, the backup opened through a second '
                        'handle must scan equal to the model view of the moment it was taken, also after any later operation of the source), '
